@@ -563,6 +563,11 @@ fn interpret_command_args(args: &Args) -> Result<Arc<Command>> {
 	}))
 }
 
+#[cfg(watchexec_verif)]
+pub fn interpret_command_args_verif(args: &Args) -> Result<Arc<Command>> {
+	interpret_command_args(args)
+}
+
 #[instrument(level = "trace")]
 fn setup_process(job: Job, command: Arc<Command>, outflags: OutputFlags) {
 	if outflags.toast {
